@@ -245,6 +245,8 @@ def _translate_metadata_to_ds9(region, shape):
     fontname = meta.pop('fontname', None)
     if fontname is not None:
         fontsize = meta.pop('fontsize', 10)  # default 10
+        if isinstance(fontsize, float) and fontsize.is_integer():
+            fontsize = int(fontsize)  # ds9 font sizes are integers
         fontweight = meta.pop('fontweight', 'normal')  # default normal
         # default roman
         fontstyle = meta.pop('fontstyle', 'roman').replace('normal', 'roman')
@@ -255,7 +257,10 @@ def _translate_metadata_to_ds9(region, shape):
         meta['dash'] = 1
     # if linestyle in ('dashed', '--'):
     if isinstance(linestyle, tuple):
-        meta['dashlist'] = f'{linestyle[1][0]} {linestyle[1][1]}'
+        # ds9 dash lengths are integers
+        dashes = [int(dash) if float(dash).is_integer() else dash
+                  for dash in linestyle[1][:2]]
+        meta['dashlist'] = f'{dashes[0]} {dashes[1]}'
 
         # dashes = meta.pop('dashes', None)
         # if dashes is not None:
